@@ -12,7 +12,8 @@ from __future__ import annotations
 from harness import sctp_check as S
 from harness import sctp_world as W
 
-LEAN_TARGETS = ["Aiortc.Props.C02"]
+LEAN_TARGETS = ["Aiortc.Props.C02", "Aiortc.Props.C02Drain"]
+AUDIT_PROPS = ["C02", "C02Drain"]
 DRIVERS = ["Sctp"]
 MANIFEST = {
     "technique": "Lean 4 invariant / induction proofs over the executable line-by-line model of the SCTP send path "
@@ -38,12 +39,37 @@ MANIFEST = {
             "every number of steps of it, and from every coherent state with an empty "
             "network one epoch (T3, _transmit, burst delivered, first SACK back) strictly advances the sender's cumulative ack within "
             "3 + burst-length steps, for any flags / miss counters / cwnd / fast-recovery state and any receiver holes; "
-            "receiver_invariant: the receiver half of that coherence hypothesis holds after every arrival sequence.",
+            "receiver_invariant: the receiver half of that coherence hypothesis holds after every arrival sequence. "
+            "(g) Props/C02Drain.lean (reliable traffic, one direction, the abstract Tx/Rx pair `Link`): C02_coherence_preserved / "
+            "C02_reachable_coherent: the coherence invariant Coh (sender invariants; lastSacked = T b a, sentQ ++ outQ carry the consecutive "
+            "TSNs T b (a+1).., localTsn follows; receiver's cumulative TSN T b r with a <= r <= a + |sentQ|, misordered TSNs in "
+            "(r, a + |sentQ|]; every DATA chunk in flight carries a transmitted TSN, every SACK in flight a cumulative TSN <= r) is "
+            "preserved by EVERY move of the two-sided system whose network may deliver any datagram in flight (reorder), drop or duplicate "
+            "it, while T3 may fire, a _transmit task may run and the application may send reliable messages at any time; hence every "
+            "reachable state is coherent (C02_ahead_derived: the facts C02_drains_partial assumed). C02_strike_needs_new_gap_ack: whatever "
+            "a SACK's gap blocks say, _receive_sack_chunk either leaves the outstanding chunks exactly as they were or newly gap-acks a "
+            "chunk behind every chunk it strikes. C02_honest_sack: the SACK _send_sack builds from a coherent receiver state is sound "
+            "and complete below the highest TSN it reports, also when it is truncated at 296 blocks / 16-bit offsets "
+            "(C02_honest_sack_exact: exact when <= 296 chunks are outstanding). C02_step_decreases: every non-T3 step of the canonical "
+            "continuation keeps coherence and the honest-SACK invariant Hon (the h SACKs that were in flight when the continuation "
+            "started are arbitrary, all later ones form a monotone chain of sound SACKs) and strictly decreases "
+            "phi2 = 2|toRx| + |toTx| + pending + 2 (flags + n S2), S2 = h + 2n while old SACKs are in flight, afterwards the total "
+            "weight of the outstanding chunks (0 gap-acked and really received, 1 not gap-acked, 2 gap-acked but not safe): a chunk "
+            "the receiver has is never struck again, so at most h + 2n SACKs strike between two T3 expiries. C02_network_empties, "
+            "C02_epoch_acks: every T3 epoch cumulatively acks at least one more chunk. "
+            "C02_drains_from_coherent: from EVERY coherent state the continuation reaches within Link.drainBound2 steps "
+            "(2|toRx| + |toTx| + 1 + 2 (n + n (|toTx| + 2n)) + n (2 + 2 (n + 2 n^2)) + 2, n = |sentQ| + |outQ|) a state with "
+            "sentQ = outQ = [], flight = 0, network empty, nothing pending, T3 off, and the receiver's cumulative TSN = old lastSacked + n "
+            "(every chunk delivered). C02_drains_abstract: composed — fresh pair, ANY finite history of such moves, then the "
+            "continuation drains within the bound and the receiver's cumulative TSN covers every chunk the application ever queued.",
     "note": "C02_drains (two full endpoints, every adversarial history, bounded drain, bufferedAmount 0, everything delivered) is stated "
-            "as a def and NOT proved. The gap between C02_drains_partial and it: re-establishment of the coherence hypothesis when the "
-            "network is next empty and emptiness of the network between epochs (a two-sided invariant over datagrams in flight), the "
-            "receiver side of FORWARD TSN, _data_channel_flush / bufferedAmount, both directions at once and the endpoint glue are covered "
-            "only by the trace correspondence plus the drain / probe oracles on the real endpoints.",
+            "as a def and NOT proved. C02_drains_abstract proves it for the abstraction `Link` of ONE direction of reliable traffic "
+            "(the model's own Tx and Rx functions, sendSack's gap blocks, DATA chunks and SACKs as separate datagram multisets) with a "
+            "polynomial bound. Still open between it and C02_drains: partial reliability (FORWARD TSN at sender and "
+            "receiver); both directions at once and bundling of SACK + DATA in one datagram; _data_channel_flush / bufferedAmount / "
+            "dcQueue; reassembly and delivery of messages to the application (the theorem ends at the receiver's cumulative TSN); "
+            "handshake, shutdown, reconfig, and the endpoint glue Endpoint.step. Those are covered only by the trace correspondence plus "
+            "the drain / probe oracles on the real endpoints.",
     "design_ref": "DESIGN.md §2.0, §2 C02",
 }
 ASSUMPTIONS = [
@@ -58,8 +84,16 @@ ASSUMPTIONS = [
     "C02_drains_partial part 3 assumes the start state is coherent (Link.Coherent: sender invariants — proved for all reachable sender "
     "states —, receiver's cumulative TSN equal to or ahead of the sender's by < 2^31 - |misordered|, misordered set consolidated and "
     "duplicate free) with an empty network, no pending task and T3 armed, and that the chunk following the cumulative ack survives T3 "
-    "(is not abandoned, i.e. belongs to a reliable channel); it yields progress of ONE epoch; iteration to full drain is not a theorem",
+    "(is not abandoned, i.e. belongs to a reliable channel); it yields progress of ONE epoch (for reliable traffic the coherence "
+    "hypothesis is derived and the epoch lemma is iterated to full drain in Props/C02Drain.lean; with partial reliability it stays "
+    "an assumption and one epoch)",
     "the Link abstraction delivers one direction's DATA chunks and SACKs only; FORWARD TSN is not delivered to the receiver there",
+    "Props/C02Drain.lean: reliable traffic only (every send has max_retransmits = None and no lifetime: Fault.Reliable); fewer than "
+    "2^31 chunks are ever queued on the association (sentTotal + 1 < 2147483648), so that serial-number comparison of any two TSNs "
+    "that occur is comparison of their indices; the receiver's initial cumulative TSN is the sender's initial TSN - 1 (Link.Fresh: what "
+    "INIT / INIT-ACK set up); each DATA chunk and each SACK travels in its own datagram (no bundling); the receiver answers every "
+    "DATA chunk with a SACK at once (Link.deliverData; the real endpoint sets a flag and sends the SACK at the end of the datagram); "
+    "bounded time = bounded number of steps of Link.step (drainBound2: cubic in |sentQ| + |outQ|, linear in the datagrams in flight)",
 ]
 TRUSTED_EXTRA = [
     "Model/Sctp/Outbound.lean, Inbound.lean, Endpoint.lean are line-by-line models, trusted up to the trace correspondence "
